@@ -138,6 +138,11 @@ func (ir *IntrospectionResolver) resolveType(schema *ast.Schema, typ *ast.Type, 
 		case "name":
 			result[f.Alias] = namedType.Name
 		case "fields":
+			// only objects and interfaces have fields
+			if namedType.Kind != ast.Object && namedType.Kind != ast.Interface {
+				result[f.Alias] = nil
+				continue
+			}
 			includeDeprecated := false
 			if deprecatedArg := f.Arguments.ForName("includeDeprecated"); deprecatedArg != nil {
 				v, err := deprecatedArg.Value.Value(ir.Variables)
@@ -162,6 +167,11 @@ func (ir *IntrospectionResolver) resolveType(schema *ast.Schema, typ *ast.Type, 
 		case "description":
 			result[f.Alias] = namedType.Description
 		case "interfaces":
+			// only objects and interfaces implement interfaces
+			if namedType.Kind != ast.Object && namedType.Kind != ast.Interface {
+				result[f.Alias] = nil
+				continue
+			}
 			interfaces := []map[string]interface{}{}
 			for _, i := range namedType.Interfaces {
 				interfaces = append(interfaces, ir.resolveType(schema, &ast.Type{NamedType: i}, f.SelectionSet))
@@ -189,6 +199,10 @@ func (ir *IntrospectionResolver) resolveType(schema *ast.Schema, typ *ast.Type, 
 				result[f.Alias] = nil
 			}
 		case "enumValues":
+			if namedType.Kind != ast.Enum {
+				result[f.Alias] = nil
+				continue
+			}
 			includeDeprecated := false
 			if deprecatedArg := f.Arguments.ForName("includeDeprecated"); deprecatedArg != nil {
 				v, err := deprecatedArg.Value.Value(ir.Variables)
@@ -208,6 +222,10 @@ func (ir *IntrospectionResolver) resolveType(schema *ast.Schema, typ *ast.Type, 
 			}
 			result[f.Alias] = enums
 		case "inputFields":
+			if namedType.Kind != ast.InputObject {
+				result[f.Alias] = nil
+				continue
+			}
 			inputFields := []map[string]interface{}{}
 			for _, fi := range namedType.Fields {
 				// an input field is an input value: it has a default value and no arguments
